@@ -353,6 +353,66 @@ pub fn derive_big22() {
     }
 }
 
+
+// ---- derived structs nested in std containers: the location of a missing / unknown / invalid report inside element i of a
+// ---- Vec, entry k of a map, the content of an Option -- under a keep-going error type, with faults in several elements -------
+#[derive(Deserr, Debug)]
+#[deserr(deny_unknown_fields)]
+pub struct Elem { pub a: Wide, #[deserr(rename = "bee")] pub b: Wide }
+#[derive(Deserr, Debug)]
+pub struct Holder { pub items: Vec<Elem>, pub byk: BTreeMap<String, Elem>, #[deserr(default)] pub opt: Option<Elem> }
+/// keep-going recorder of (kind, name, rendered location)
+#[derive(Debug, Default)]
+pub struct LocLog(pub Vec<(u8, String, String)>);
+impl MergeWithError<LocLog> for LocLog {
+    fn merge(s: Option<Self>, mut other: LocLog, _l: ValuePointerRef) -> ControlFlow<Self, Self> { let mut s = s.unwrap_or_default(); s.0.append(&mut other.0); ControlFlow::Continue(s) }
+}
+impl DeserializeError for LocLog {
+    fn error<V: IntoValue>(s: Option<Self>, e: ErrorKind<V>, l: ValuePointerRef) -> ControlFlow<Self, Self> {
+        let mut s = s.unwrap_or_default();
+        fn walk(l: ValuePointerRef, out: &mut String) {
+            match l { ValuePointerRef::Origin => {}, ValuePointerRef::Key { key, prev } => { walk(*prev, out); out.push('.'); out.push_str(key); } ValuePointerRef::Index { index, prev } => { walk(*prev, out); out.push_str(&format!("[{index}]")); } }
+        }
+        let mut path = String::new(); walk(l, &mut path);
+        s.0.push(match e {
+            ErrorKind::MissingField { field } => (1, field.to_string(), path),
+            ErrorKind::UnknownKey { key, .. } => (2, key.to_string(), path),
+            ErrorKind::Unexpected { .. } => (5, String::new(), path),
+            _ => (0, String::new(), path),
+        });
+        ControlFlow::Continue(s)
+    }
+}
+/// one element: 0 = fine, 1 = `a` missing, 2 = `bee` missing, 3 = `a` invalid, 4 = an unknown key, 5 = both missing
+fn elem_doc(shape: u8, at: &str, want: &mut Vec<(u8, String, String)>) -> J {
+    match shape {
+        0 => json!({"a": 1, "bee": 2}),
+        1 => { want.push((1, "a".into(), at.into())); json!({"bee": 2}) }
+        2 => { want.push((1, "bee".into(), at.into())); json!({"a": 1}) }
+        3 => { want.push((5, String::new(), format!("{at}.a"))); json!({"a": "x", "bee": 2}) }
+        4 => { want.push((2, "zz".into(), at.into())); json!({"a": 1, "bee": 2, "zz": 0}) }
+        _ => { want.push((1, "a".into(), at.into())); want.push((1, "bee".into(), at.into())); json!({}) }
+    }
+}
+pub fn derive_nested_in_containers() {
+    let mut want: Vec<(u8, String, String)> = Vec::new();
+    let n = 1 + nd::below(3) as usize;
+    let mut items = Vec::new();
+    for i in 0..n { items.push(elem_doc(nd::below(6), &format!(".items[{i}]"), &mut want)); }
+    let mut byk = serde_json::Map::new();
+    for k in ["k1", "k2"] { byk.insert(k.to_string(), elem_doc(nd::below(6), &format!(".byk.{k}"), &mut want)); }
+    let mut doc = serde_json::Map::new();
+    doc.insert("items".into(), J::Array(items)); doc.insert("byk".into(), J::Object(byk));
+    match nd::below(3) { 0 => {}, 1 => { doc.insert("opt".into(), J::Null); } _ => { doc.insert("opt".into(), elem_doc(1 + nd::below(5), ".opt", &mut want)); } }
+    // serde_json enumerates object members in key order: byk, items, opt -- and inside an element: a, bee, zz; the unknown key and the
+    // invalid value are reported in that order, the missing fields after them, so sort both sides (the property here is about
+    // *which* reports are made and *where*, their order is C02's business)
+    let r: Result<Holder, LocLog> = deserr::deserialize(J::Object(doc));
+    let mut got = match r { Ok(_) => Vec::new(), Err(LocLog(l)) => l };
+    got.sort(); want.sort();
+    oblige!(got == want, "C02,C04,C08,C09:reports_inside_nested_containers_name_the_element_they_belong_to");
+}
+
 pub fn registry() -> Vec<(&'static str, crate::Body)> {
-    vec![("msg_paths", msg_paths as crate::Body), ("msg_readback", msg_readback), ("derive_big22", derive_big22)]
+    vec![("msg_paths", msg_paths as crate::Body), ("msg_readback", msg_readback), ("derive_big22", derive_big22), ("derive_nested_in_containers", derive_nested_in_containers)]
 }
